@@ -83,6 +83,9 @@ theorem astep_effonly (P : Params) (E : Env) (A : AState) (a : Action) (he : Eff
   | setSrc p v => exact he
   | apiWrite p v k => exact he
   | eval p => exact he
+  | create p => exact he
+  | remove p => exact he
+  | forceEval => exact he
   | write p =>
     unfold EffOnly at he ⊢
     simp only [astep, List.filter_append, he]
@@ -129,6 +132,9 @@ theorem astep_quiet_settled (P : Params) (E : Env) (A : AState) (a : Action) (hq
   | pass k now => cases hq
   | setSrc p v => cases hq
   | write p => cases hq
+  | create p => cases hq
+  | remove p => cases hq
+  | forceEval => cases hq
   | apiWrite p v k => exact ⟨modPort_settled p (enqApi v k) (fun _ => ⟨rfl, rfl, rfl⟩) A.ports h1, h2⟩
   | eval p => exact ⟨modPort_settled p (evalPort E) (evalPort_keeps E) A.ports h1, h2⟩
 
@@ -169,6 +175,18 @@ theorem arun_squash (P : Params) (E : Env) :
     | write p =>
       simp only [squash, quiet, Bool.and_false]
       have e1 : arun P E A (.write p :: squash false σ) = arun P E (astep P E A (.write p)) (squash false σ) := rfl
+      rw [e1, e2]; exact ih false _ (fun h => by cases h) heo
+    | create p =>
+      simp only [squash, quiet, Bool.and_false]
+      have e1 : arun P E A (.create p :: squash false σ) = arun P E (astep P E A (.create p)) (squash false σ) := rfl
+      rw [e1, e2]; exact ih false _ (fun h => by cases h) heo
+    | remove p =>
+      simp only [squash, quiet, Bool.and_false]
+      have e1 : arun P E A (.remove p :: squash false σ) = arun P E (astep P E A (.remove p)) (squash false σ) := rfl
+      rw [e1, e2]; exact ih false _ (fun h => by cases h) heo
+    | forceEval =>
+      simp only [squash, quiet, Bool.and_false]
+      have e1 : arun P E A (.forceEval :: squash false σ) = arun P E (astep P E A .forceEval) (squash false σ) := rfl
       rw [e1, e2]; exact ih false _ (fun h => by cases h) heo
     | apiWrite p v k =>
       simp only [squash, quiet, Bool.and_true]
